@@ -180,6 +180,7 @@ def r2_offset(R, sh: SolverShape) -> None:
                 f'no rejection `{desc}` (P = normalised position) guards the offset copy '
                 f'(strictness and bounds are compared in integer canonical form)',
                 where=sh.where(cp.node),
+                mismatch=True,
             )
             continue
         rs = [r for r in ixs if (tn.id, 'T') in sh.guards_of(r.id)]
@@ -325,7 +326,7 @@ def r6_exit_table(R, sh: SolverShape, linker: bool = False) -> None:
                 raise Unsupported(f'{sh.q}: `{sval.id}` is bound to `{text(v) if v is not None else "<parameter>"}`: not a value the flag analysis can follow')
             R.violation(sh.q, f'status-def:{text(v)}',
                         f'a definition of `{sval.id}` reaching the final store is not `SolutionStatus.<member>.value`: `{text(v)}`',
-                        where=sh.where(node) if node else '')
+                        where=sh.where(node) if node else '', mismatch=True)
         raise Unsupported(f'{sh.q}: `{sval.id}` is not a flag (bound by a loop, unpacking or augmented assignment)')
     members = {k: v for k, v in by_member.items() if isinstance(k, str)}
     for k, tg in by_member.items():
@@ -544,19 +545,19 @@ def forwarding_identity(R, q: str, call: ast.Call, options, where: str = '', ext
     for o in list(options) + list(extra_kw):
         v = kwarg(call, o)
         if v is None:
-            R.violation(q, f'forward-dropped:{o}', f'option `{o}` is not forwarded by `{text(call.func)}(...)`', where=where)
+            R.violation(q, f'forward-dropped:{o}', f'option `{o}` is not forwarded by `{text(call.func)}(...)`', where=where, mismatch=True)
         elif not (isinstance(v, ast.Name) and v.id == o):
             R.violation(q, f'forward-crossed:{o}', f'option `{o}` is forwarded as `{o}={text(v)}`', where=where)
         else:
             R.ok(q, f'{o}={o} forwarded to {text(call.func)}', trivial=True)
     if not has_star_kwargs(call, 'kwargs'):
-        R.violation(q, 'forward-dropped:**kwargs', f'`**kwargs` is not forwarded by `{text(call.func)}(...)`', where=where)
+        R.violation(q, 'forward-dropped:**kwargs', f'`**kwargs` is not forwarded by `{text(call.func)}(...)`', where=where, mismatch=True)
     else:
         R.ok(q, f'**kwargs forwarded to {text(call.func)}', trivial=True)
     named = {k.arg for k in call.keywords if k.arg}
     unexpected = named - set(options) - set(extra_kw)
     for u in sorted(unexpected):
-        R.violation(q, f'forward-extra:{u}', f'unexpected keyword `{u}=` in forwarding call', where=where)
+        R.violation(q, f'forward-extra:{u}', f'unexpected keyword `{u}=` in forwarding call', where=where, mismatch=True)
 
 
 # ---------------------------------------------------------------------------
